@@ -159,10 +159,12 @@ PROPS["C06"] = {
     "quick": [
         {"test": "^TestRegress", "timeout": 120},
         {"test": "^TestReceiverReports$", "checks": 1000, "shards": 3, "timeout": 400},
+        {"test": "^TestCumulativeLostSaturates$", "checks": 2, "shards": 3, "timeout": 300},
     ],
     "thorough": [
         {"test": "^TestRegress", "timeout": 120},
         {"test": "^TestReceiverReports$", "checks": 5000, "shards": 15, "timeout": 1500},
+        {"test": "^TestCumulativeLostSaturates$", "checks": 12, "shards": 8, "timeout": 900},
     ],
 }
 
